@@ -166,7 +166,7 @@ func c03Run(c *Ctx, mem *fastMem, e *enc16, base z80.States, x0, x1 uint32, ys [
 			c.R.Sample(map[string]interface{}{"encoding": e.Name, "bytes": HexBytes(e.Bytes), "x": h16(x), "y": h16(yy), "F_in": h8(f),
 				"result": h16(get16(&cpu.States, e.Dst)), "F_out": h8(cpu.States.AF.Lo), "oracle_result": h16(r), "oracle_F": h8(nf)})
 		}
-		if cpu.States != exp || cpu.HALT {
+		if Arch(cpu.States) != exp || cpu.HALT {
 			reported++
 			if reported <= 3 {
 				c.R.Violation(fmt.Sprintf("C03/%s", e.Name), map[string]interface{}{
